@@ -69,7 +69,7 @@ PROPERTIES = {
 }
 
 BACKENDS = ["atlas", "cms_aod", "cms_miniaod"]
-N_RUNS = {"quick": 500, "thorough": 6000}
+N_RUNS = {"quick": 600, "thorough": 6000}
 _scratch = None
 _tc = None
 
